@@ -496,6 +496,26 @@ def c07_scope(res, pid, rng, tier):
             if s_ in out or any(s_ in m for _, m in lg):
                 fails.append({"kind": "a secret survives in the output or in an INFO+ log record (two secrets of one line form on one line)",
                               "salt": cfg.salt, "line": ln, "output": out, "secret": s_})
+    # the output is a function of the run, not of what this process did before: a second anonymizer with the same salt and options
+    # meets, as its first line, a line that the first anonymizer met later in its input; paired with the same run over a line whose
+    # secret differs (same form, same length) - the two outputs must be the same text
+    for k_, (f_, sa_, sb_, sc_) in enumerate((("username x password 0 {}\n", "SiteAsecretQ7", "otherAkey7777", "zzzzBkey77777"),
+                                              ("snmp-server community {} ro\n", "commAAAA1", "commBBBB2", "commCCCC3"),
+                                              (" password 7 {}\n", "0822455D0A16", "13061E010803", "045802150C2E"))):
+        salt_ = "p%d-%d" % (k_, res.seed)
+        try:
+            run_lines(fa.FaCfg(salt=salt_, pwd=True), [f_.format(sa_), f_.format(sb_)])
+            o_b, _ = run_lines(fa.FaCfg(salt=salt_, pwd=True), [f_.format(sb_)])
+            o_c, _ = run_lines(fa.FaCfg(salt=salt_, pwd=True), [f_.format(sc_)])
+        except Exception as e:  # noqa
+            fails.append({"kind": "anonymize_io raised on a recognised line form", "exc": repr(e), "salt": salt_})
+            continue
+        res.evaluations += 4
+        if o_b != o_c:
+            fails.append({"kind": "the output depends on the secret: a run whose only line was met by an earlier anonymizer of this process (same salt) "
+                                  "differs from the run over the same line with another secret",
+                          "salt": salt_, "earlier_run": [f_.format(sa_), f_.format(sb_)], "line": f_.format(sb_), "output": o_b[0],
+                          "paired_line": f_.format(sc_), "paired_output": o_c[0]})
     return [], fails
 
 
